@@ -6,6 +6,7 @@ pub mod c11;
 pub mod c13;
 pub mod c16;
 pub mod c17;
+pub mod c18;
 pub mod c20;
 pub mod echo_gen;
 
@@ -44,6 +45,11 @@ pub struct Sink {
     pub cur_sub: u64,
     /// hash over the fingerprints of all runs of the current job, in order
     pub job_fp: u64,
+    /// crash hunting: print "sub=<n>" before each execution
+    pub progress: bool,
+    /// crash hunting: print the plan with this sub index and exit instead of
+    /// executing it
+    pub emit_at: Option<u64>,
 }
 
 #[derive(Clone)]
@@ -74,6 +80,8 @@ impl Sink {
             cur_job: 0,
             cur_sub: 0,
             job_fp: 0,
+            progress: false,
+            emit_at: None,
         }
     }
 
@@ -135,6 +143,7 @@ pub fn scenario(name: &str) -> Option<Box<dyn Scenario>> {
         "C13" => Some(Box::new(c13::C13)),
         "C16" => Some(Box::new(c16::C16)),
         "C17" => Some(Box::new(c17::C17)),
+        "C18" => Some(Box::new(c18::C18)),
         "C20" => Some(Box::new(c20::C20)),
         _ => None,
     }
@@ -147,6 +156,15 @@ pub fn execute(
     sink: &mut Sink,
     sweep: bool,
 ) -> (Outcome, Vec<Violation>) {
+    if sink.emit_at == Some(sink.cur_sub) {
+        println!("{}", serde_json::to_string(plan).unwrap());
+        std::process::exit(0);
+    }
+    if sink.progress {
+        use std::io::Write;
+        println!("sub={}", sink.cur_sub);
+        let _ = std::io::stdout().flush();
+    }
     let out = run_plan(plan);
     let mut pr = Vec::new();
     let mut v = scn.check(plan, &out, &mut pr);
